@@ -261,7 +261,7 @@ class ClassDB(Generic[CombinatorialClassType]):
         Return True if combinatorial class is empty set, False if not.
         """
         if label is None:
-            label = self.label_dict[self._compress(comb_class)]
+            label = self.get_label(comb_class)
 
         empty = self.empty_list[label]
         if empty is None:
